@@ -41,6 +41,14 @@ def main(tier):
             "lifetimes": [604800, 604800, 500, 0]}
     res.merge(histrun.run(PROP, b, core.scaled(1500 if quick else 12000), prof, ORACLES, salt="h"))
     res.merge(histrun.run(PROP, b, core.scaled(400 if quick else 3000), dict(prof, qq_fail=0.3), ORACLES, salt="qf"))
+    # one failing read()/open() of the files a notice is built from (bounce/N, mess/N, info/N) per run: the notice must still
+    # name every failed recipient once the daemon has retried (I/O faults are outside the stated quantifier; kept small)
+    prof_sw = dict(prof, max_msgs=2, p_term_restart=0.0, count="mtro", trace_extra="tr", max_rcpts=4)
+    for idx in histrun.pick_scenarios(PROP, b, "fs", prof_sw, 1 if quick else 3):
+        calls, h = histrun.reference_calls_log(PROP, b, idx, "fs", prof_sw, classes=("read", "openr"))
+        calls = [c for c in calls if any(d in c[3] for d in ("queue/bounce/", "queue/mess/", "queue/info/"))]
+        res.counters.inc("fault_sweep_reference_calls", len(calls))
+        res.merge(histrun.run_sweep(PROP, b, idx, "fs", prof_sw, ORACLES, histrun.fault_plans(calls, every=1)))
     rule = ("seeded histories on real qmail-send + qmail-queue in which recipients fail permanently (or temporarily past the queue "
             "lifetime) with failure texts from arbitrary bytes (blank lines, leading newlines, forged <x@y>: paragraphs, a forged "
             "'Below this line' marker, 8-bit, texts around REPORTMAX), senders ordinary / empty / #@[] / owner-@host-@[], random "
